@@ -295,6 +295,15 @@ func Eq(a, b *Term) *Term {
 			return Not(a)
 		}
 	}
+	// a constant with a 1 where the other side is known to be 0
+	if a.S.K == KBV && a.S.W <= 64 {
+		if b.IsConst() && b.Val&knownZero(a) != 0 {
+			return False
+		}
+		if a.IsConst() && a.Val&knownZero(b) != 0 {
+			return False
+		}
+	}
 	// eq(ite(c, k1, k2), k) with constants
 	if b.IsConst() && a.Op == "ite" && a.Args[1].IsConst() && a.Args[2].IsConst() {
 		return Ite(a.Args[0], Eq(a.Args[1], b), Eq(a.Args[2], b))
@@ -472,6 +481,18 @@ func bvbin(op string, a, b *Term) *Term {
 		if b.IsConst() && a.Op == "bvand" && a.Args[1].IsConst() {
 			return bvbin("bvand", a.Args[0], BVC(w, a.Args[1].Val&b.Val))
 		}
+		if b.IsConst() && w <= 64 {
+			ones1 := ^knownZero(a) & m // bits of a that can be 1
+			if ones1&b.Val == 0 {
+				return BVC(w, 0)
+			}
+			if ones1&^b.Val == 0 {
+				return a
+			}
+			if a.Op == "bvor" {
+				return bvbin("bvor", bvbin("bvand", a.Args[0], b), bvbin("bvand", a.Args[1], b))
+			}
+		}
 		// zero_extend(x) & c where c covers all of x's bits
 		if b.IsConst() && a.Op == "zero_extend" {
 			xw := a.Args[0].S.W
@@ -515,6 +536,17 @@ func bvbin(op string, a, b *Term) *Term {
 		if b.IsConst() && b.Val >= uint64(w) {
 			return BVC(w, 0)
 		}
+		if op == "bvlshr" && b.IsConst() && w <= 64 {
+			if (^knownZero(a)&m)>>b.Val == 0 {
+				return BVC(w, 0)
+			}
+			if a.Op == "bvshl" && a.Args[1] == b { // (x << k) >> k
+				return bvbin("bvand", a.Args[0], BVC(w, m>>b.Val))
+			}
+			if a.Op == "bvor" {
+				return bvbin("bvor", bvbin("bvlshr", a.Args[0], b), bvbin("bvlshr", a.Args[1], b))
+			}
+		}
 	case "bvashr":
 		if zero(b) || zero(a) {
 			return a
@@ -526,6 +558,62 @@ func bvbin(op string, a, b *Term) *Term {
 	}
 	return mk(op, a.S, "", 0, 0, 0, a, b)
 }
+
+// knownZero returns the bits of a bit-vector term (width <= 64) that are 0 in every model.
+func knownZero(t *Term) uint64 {
+	if t.S.K != KBV || t.S.W > 64 {
+		return 0
+	}
+	m := mask(t.S.W)
+	if t.IsConst() {
+		return ^t.Val & m
+	}
+	kzMu.Lock()
+	v, ok := kzMemo[t.id]
+	kzMu.Unlock()
+	if ok {
+		return v
+	}
+	var r uint64
+	switch t.Op {
+	case "zero_extend":
+		xw := t.Args[0].S.W
+		r = (m &^ mask(xw)) | knownZero(t.Args[0])
+	case "bvshl":
+		if k := t.Args[1]; k.IsConst() && k.Val < 64 {
+			r = (knownZero(t.Args[0])<<k.Val | (uint64(1)<<k.Val - 1)) & m
+		}
+	case "bvlshr":
+		if k := t.Args[1]; k.IsConst() && k.Val < 64 {
+			r = (knownZero(t.Args[0]) >> k.Val) | (m &^ (m >> k.Val))
+		}
+	case "bvand":
+		r = knownZero(t.Args[0]) | knownZero(t.Args[1])
+	case "bvor", "bvxor":
+		r = knownZero(t.Args[0]) & knownZero(t.Args[1])
+	case "ite":
+		r = knownZero(t.Args[1]) & knownZero(t.Args[2])
+	case "bvadd":
+		a, b := knownZero(t.Args[0]), knownZero(t.Args[1])
+		if a|b == m { // no position where both can be 1: behaves like or
+			r = a & b
+		}
+	case "extract":
+		if t.Args[0].S.W <= 64 {
+			r = (knownZero(t.Args[0]) >> uint(t.P2)) & m
+		}
+	}
+	r &= m
+	kzMu.Lock()
+	kzMemo[t.id] = r
+	kzMu.Unlock()
+	return r
+}
+
+var (
+	kzMu   sync.Mutex
+	kzMemo = map[uint64]uint64{}
+)
 
 func Add(a, b *Term) *Term  { return bvbin("bvadd", a, b) }
 func Sub(a, b *Term) *Term  { return bvbin("bvsub", a, b) }
